@@ -396,7 +396,17 @@ impl BudgetEnforcer {
                     }
                 }
             }
-            Event::DocumentEnd => {}
+            Event::DocumentEnd => {
+                // Per-document quantities are judged per document: the ratio heuristic of the
+                // document that just ended is evaluated here, before the next document start
+                // forgets its counters (`finalize` only ever sees the last document).
+                if self.policy == EnforcingPolicy::PerDocument {
+                    self.report.anchors = self.defined_anchors.len();
+                    if let Some(breach) = self.alias_anchor_ratio_breach() {
+                        return Err(breach);
+                    }
+                }
+            }
             Event::Nothing => {}
             Event::StreamStart | Event::StreamEnd => {}
         }
@@ -545,6 +555,16 @@ impl BudgetEnforcer {
     pub fn finalize(mut self) -> BudgetReport {
         self.report.anchors = self.defined_anchors.len();
 
+        if let Some(breach) = self.alias_anchor_ratio_breach() {
+            self.report.breached = Some(breach);
+        }
+
+        self.report
+    }
+
+    /// The alias/anchor ratio heuristic over the counters of `report` (`report.anchors` must
+    /// have been brought up to date by the caller).
+    fn alias_anchor_ratio_breach(&self) -> Option<BudgetBreach> {
         if self.budget.enforce_alias_anchor_ratio
             && self.report.aliases >= self.budget.alias_anchor_min_aliases
             && (self.report.anchors == 0
@@ -554,13 +574,13 @@ impl BudgetEnforcer {
                         .alias_anchor_ratio_multiplier
                         .saturating_mul(self.report.anchors))
         {
-            self.report.breached = Some(BudgetBreach::AliasAnchorRatio {
+            Some(BudgetBreach::AliasAnchorRatio {
                 aliases: self.report.aliases,
                 anchors: self.report.anchors,
-            });
+            })
+        } else {
+            None
         }
-
-        self.report
     }
 }
 
